@@ -55,10 +55,11 @@ Record cfg := {
 
 (* /repo at the current head: F3 (9f55003), F5 (0ec1e88), F4 (6b3ddc7), F16 + root (7de64dd), dryinit
    (402f6f3), ignore (0fb80cd), implicit (af70570), ByKey conflicts per call + gated clear() (c3330a7) are
-   repaired; the exclude patterns inside copytree (fix_excl) are the one open known finding *)
+   and exclude patterns inside copytree / cloned jobs (74ea1a0) are repaired: every switch is on, cfg_current
+   and cfg_fixed coincide; the switches remain as the record of what each repair changed *)
 Definition cfg_current : cfg :=
   {| fix_F3 := true; fix_F4 := true; fix_F5 := true; fix_F16 := true; fix_root := true;
-     fix_excl := false; fix_dryinit := true; fix_ignore := true; fix_implicit := true;
+     fix_excl := true; fix_dryinit := true; fix_ignore := true; fix_implicit := true;
      fix_shared := true |}.
 Definition cfg_fixed : cfg :=
   {| fix_F3 := true; fix_F4 := true; fix_F5 := true; fix_F16 := true; fix_root := true;
